@@ -124,6 +124,8 @@ func (vm *Vm) Run(ctx context.Context, b []byte) ([]byte, error) {
 	if !vm.st.MatchFlag(state.FLAG_TERMINATE, true) {
 		vm.st.ResetFlag(state.FLAG_INMATCH)
 	}
+	// an error recorded for the page of a previous run that failed was never shown; it must not turn up now
+	vm.pg = vm.pg.WithError(nil)
 	for running {
 		r := vm.st.MatchFlag(state.FLAG_TERMINATE, true)
 		if r {
